@@ -1447,7 +1447,15 @@ def resume_from_checkpoint(
         if simulation_class_kwargs is None:
             simulation_class_kwargs = {}
         del sim  # free memory
-        return run_seq_simulations(sequential, SimClass, simulation_class_kwargs, resume_data=resume_data, **options)
+        # `sequential` is passed explicitly (and re-inserted by run_seq_simulations)
+        simulation_params = {k: v for k, v in options.items() if k != 'sequential'}
+        if simulation_params.get('output_filename_params', None) is not None:
+            # the filename of the resumed simulation was generated from these parameters;
+            # the remaining simulations need their own filenames
+            simulation_params.pop('output_filename', None)
+        return run_seq_simulations(
+            sequential, SimClass, simulation_class_kwargs, resume_data=resume_data, **simulation_params
+        )
     return results
 
 
